@@ -741,3 +741,164 @@ def r11_8(prog, out):
         out.violation(key, prog.loc(tid, ins[0].bb), "the attach handler attaches whatever arrives, and nothing orders a subscription's attach request (sent from a task after the "
                       "name was registered) before its own detach request: DeleteSubscription racing CreateSubscription leaves a deleted subscription attached to the topic "
                       "for ever, and every later Publish to the topic fails on its closed mailbox")
+
+
+def deletion_latch(prog, R):
+    """the flag of the subscription handle that the attach handler consults before it attaches (R11.8): (cell, attach handler id)"""
+    from mapstate import _bool_switches
+    attach = R.attach_variant()
+    tids = R.variant_targets(R.topic_actor, attach)
+    if not tids:
+        return None, None
+    tid = tids[0]
+    bi = prog.info(tid)
+    ins = [e for e in prog.effects(tid) if e.touches(R.topic_subs) and e.kind in L.INSERT_KINDS]
+    for e in prog.effects(tid):
+        if e.kind not in ("atomic_load", "atomic_rmw") or not e.cells:
+            continue
+        t = bi.body.blocks[e.bb].term if not e.chain else None
+        if t is None or t.k != "call" or t.dest is None or not t.dest.is_local():
+            continue
+        for sw, tr, fa in _bool_switches(bi, t.dest.local):
+            if fa is not None and ins and all(x.bb in bi.cfg.edge_dominated(sw, fa) for x in ins):
+                return e.cells[-1], tid
+    return None, tid
+
+
+def _r11_9(prog, out, prop):
+    """The handle's `deletion has begun` latch (raised by `Subscription::delete` before it sends the detach request, read by the
+    topic's attach handler) invites reuse: skip a push round for a subscription that is on its way out, make delete idempotent,
+    answer NOT_FOUND early, release the name only for a handle that asked for it.  Every such reader takes a decision that is
+    right exactly when latch = `this handle's own deletion has begun and will run to completion`.  That meaning is lost when
+    (a) something else raises the latch too (the topic's deletion flagging its subscriptions: they live on, their deletion has
+    not begun), (b) the deletion raises it only on some paths, or (c) the reader's arm is also taken when the topic is merely
+    gone.  Neither the extra reader nor the extra writer is wrong alone; together a live subscription is never pushed to again,
+    DeleteSubscription waits for a signal nobody sends, returns OK without deleting, or leaves the name taken.
+    One instance per deciding reader outside the attach handler; zero readers is the state of the reference tree."""
+    from mapstate import _bool_switches
+    R = roles(prog)
+    cell, attach_tid = deletion_latch(prog, R)
+    if cell is None:
+        out.holds("latch-readers", "", "no deletion latch is consulted by the attach handler (R11.8 judges how an overtaken attach is kept out)", nontrivial=False)
+        return
+    actor, vname, _tid = delete_flow(prog)
+    d_roots = set()
+    for (b2, _bb, _i, _rv) in prog.constructions(actor.request, vname):
+        x = prog.facts.body(b2)
+        while x is not None and x.parent:
+            x = prog.facts.body(prog.qual(x, x.parent))
+        d_roots.add(x.id if x is not None else b2)
+
+    def root_of(bid):
+        x = prog.facts.body(bid)
+        while x is not None and x.parent:
+            x = prog.facts.body(prog.qual(x, x.parent))
+        return x.id if x is not None else bid
+
+    writers = []       # (body, bb)
+    for b in prog.facts.lib_bodies():
+        ebi = prog.info(b.id)
+        for e in prog.own_effects(b.id):
+            if not e.cells or e.cells[-1] != cell or e.kind not in ("atomic_store", "atomic_rmw"):
+                continue
+            st = ebi.body.blocks[e.bb].term
+            if st.k == "call" and len(st.args) >= 2 and st.args[1].const_bool() is True:
+                writers.append((b.id, e.bb))
+    accessors = set()
+    for b in prog.facts.lib_bodies():
+        if b.local_ty(0) == "bool" and any(e.kind == "atomic_load" and e.cells and e.cells[-1] == cell for e in prog.own_effects(b.id)):
+            accessors.add(b.id)
+    readers = []       # (body, bb of the read, dest local)
+    for b in prog.facts.lib_bodies():
+        bi = prog.info(b.id)
+        for e in prog.own_effects(b.id):
+            if e.cells and e.cells[-1] == cell and e.kind in ("atomic_load", "atomic_rmw"):
+                t = bi.body.blocks[e.bb].term
+                if t.k == "call" and t.dest is not None and t.dest.is_local():
+                    readers.append((b.id, e.bb, t.dest.local))
+        for bb, t in bi.calls(lambda c: prog.qual(b, c.target) in accessors):
+            if t.dest is not None and t.dest.is_local():
+                readers.append((b.id, bb, t.dest.local))
+    n = 0
+    where = {"C14": lambda bid: bid.startswith("crate::push::"),
+             "C07": lambda bid: root_of(bid) in d_roots,
+             "C12": lambda bid: root_of(bid) in d_roots}
+    for bid, bb, local in readers:
+        if bid == attach_tid or root_of(bid) == root_of(attach_tid) or bid in accessors:
+            continue
+        bi = prog.info(bid)
+        sws = _bool_switches(bi, local)
+        if not sws:
+            continue            # the value is reported, not decided on
+        if prop in where and not where[prop](bid):
+            continue
+        n += 1
+        key = "latch-reader:%s" % prog.short(bid)
+        foreign = [(w, wbb) for w, wbb in writers if root_of(w) not in d_roots]
+        partial = []
+        for w, wbb in writers:
+            if root_of(w) in d_roots:
+                wi = prog.info(w)
+                if wi.cfg.escapes(0, {wbb}, after=False) is not None:
+                    partial.append((w, wbb))
+        # (c) the latch-set arm is also reached when the latch is not set, because the topic is gone
+        gone = None
+        headers = set(bi.cfg.loops())
+        sl = Slicer(prog)
+        for sw, tr, fa in sws:
+            if tr is None or fa is None:
+                continue
+            # `latch || topic gone`: a test of the topic's Weak on the latch-false side one of whose arms joins the latch-true arm
+            # (short-circuit: the latch-true side reaches that arm without passing the test itself)
+            region = bi.cfg.reachable_from(fa, avoid=headers | {sw})
+            for g in sorted(region):
+                gt = bi.body.blocks[g].term
+                if gt.k != "switch" or gt.discr is None or gt.discr.place is None:
+                    continue
+                cs = sl.of(bid, gt.discr).calls
+                if not any(c.split("::")[-1] in ("strong_count", "upgrade") and "Weak" in c for c in cs):
+                    continue
+                for g2 in bi.cfg.succ[g]:
+                    if bi.cfg.path(tr, {g2}, avoid=headers | {sw, g}):
+                        gone = bi.loc(g)
+        if foreign:
+            w, wbb = foreign[0]
+            out.violation(key, bi.loc(bb), "%s decides on the handle's `deletion has begun` latch, but %s raises that latch too, without any deletion of the subscription "
+                          "having begun: the subscription lives on and is treated as being deleted (not pushed to again / its delete waits for, or reports, a deletion "
+                          "nobody performs)" % (prog.short(bid), prog.short(w)),
+                          ["reader at %s" % bi.loc(bb), "foreign writer at %s" % prog.loc(w, wbb)])
+        elif partial:
+            w, wbb = partial[0]
+            out.violation(key, bi.loc(bb), "%s decides on the handle's `deletion has begun` latch, but the deletion raises it only on some paths (%s): for the others the "
+                          "reader concludes that no deletion was requested" % (prog.short(bid), prog.loc(w, wbb)))
+        elif gone:
+            out.violation(key, bi.loc(bb), "%s takes the arm meant for `the deletion of this subscription has begun` also when its topic is merely gone (%s): a subscription "
+                          "whose topic was deleted still exists and must keep being served" % (prog.short(bid), gone))
+        else:
+            out.holds(key, bi.loc(bb), "decides on the latch; the latch is raised only by the handle's own deletion, on every path")
+    out.holds("latch-readers", "", "%d decision(s) on the deletion latch outside the attach handler" % n, nontrivial=False)
+
+
+@rule("C11", "R11.9", "whoever decides on the handle's `deletion has begun` latch can rely on it: only the handle's own deletion raises it, unconditionally", floor=1)
+def r11_9_c11(prog, out):
+    _r11_9(prog, out, "C11")
+
+
+@rule("C10", "R11.9", "whoever decides on the handle's `deletion has begun` latch can rely on it: only the handle's own deletion raises it, unconditionally", floor=1)
+def r11_9_c10(prog, out):
+    _r11_9(prog, out, "C10")
+
+
+@rule("C07", "R11.9", "whoever decides on the handle's `deletion has begun` latch can rely on it: only the handle's own deletion raises it, unconditionally", floor=1)
+def r11_9_c07(prog, out):
+    _r11_9(prog, out, "C07")
+
+
+@rule("C12", "R11.9", "whoever decides on the handle's `deletion has begun` latch can rely on it: only the handle's own deletion raises it, unconditionally", floor=1)
+def r11_9_c12(prog, out):
+    _r11_9(prog, out, "C12")
+
+
+@rule("C14", "R11.9", "whoever decides on the handle's `deletion has begun` latch can rely on it: only the handle's own deletion raises it, unconditionally", floor=1)
+def r11_9_c14(prog, out):
+    _r11_9(prog, out, "C14")
